@@ -140,13 +140,13 @@ def build_cases(rng, tier, ws):
         return sorted(f for f in fs if rng.random() < p)
 
     if tier == "quick":
+        out.append([("zbus", True, zb)])                                                  # all features of the big crates
+        out.append([("zvariant", True, zv)])
         rt = rng.choice(["tokio", "async-io"])
         out.append([("zbus", False, sorted({rt, rng.choice(zb)}))])                       # a single zbus feature on one runtime
         out.append([("zvariant", False, [rng.choice(zv)])])                               # a single zvariant feature
         c = rng.choice(small)
         out.append([(c, rng.random() < 0.5, sample(sorted(f for f in libs[c]["features"] if f != "default"), 0.5))])
-        out.append([("zbus", True, zb)])                                                  # all features of the big crates
-        out.append([("zvariant", True, zv)])
         out.append([("zvariant", rng.random() < 0.5, sample(zv, 0.4))])                   # powerset samples
         out.append([("zbus", False, sorted(set(sample(zb, 0.3)) | {rng.choice(["tokio", "async-io"])}))])
         out.append(random_sel(rng, libs, kmax=3))                                         # a mixed downstream crate
@@ -291,7 +291,7 @@ def run_builds(scr, cases, lanes):
     the first lanes, the cheap ones to the last lane, so that the expensive externals are compiled as few times as possible."""
     res = {}
     lanes = max(1, min(lanes, len(cases)))
-    jobs = max(2, core.NCPU // lanes)
+    jobs = core.NCPU if lanes <= 2 else max(2, core.NCPU // lanes * 2)
     heavy = [c for c in cases if re.search(r"\bzbus(_xmlgen)?:", c)]
     light = [c for c in cases if c not in heavy]
     chunks = [[] for _ in range(lanes)]
@@ -454,6 +454,9 @@ def custom_run(pid, tier, seed, replay=None):
                     mt.update(more)
                     bcases = dd(extra_from_model + bcases)
             lanes = 2 if tier == "quick" else 4
+            limit = os.environ.get("C35_BUILD_LIMIT")   # self-test knob: keep only the first n build cases (search hits,
+            if limit and not replay:                    # witnesses, repaired witness, all-features come first)
+                bcases = bcases[:max(1, int(limit))]
             bi = run_builds(scr, bcases, lanes)
             for c in bcases:
                 m, s, k = (mt[c].split("\t") + ["-", "-"])[:3]
